@@ -859,7 +859,7 @@ func valClasses(call, want, got string) (string, string) {
 		call = strings.TrimPrefix(call, p)
 	}
 
-	switch call {
+	switch call = handleAsOpen(call); call {
 	case "Stat", "Lstat", "Open.Stat":
 		wn, wr, _ := strings.Cut(want, " ")
 		gn, gr, _ := strings.Cut(got, " ")
@@ -883,6 +883,27 @@ func valClasses(call, want, got string) (string, string) {
 	}
 
 	return "value", "other-value"
+}
+
+// handleAsOpen: the sub-calls of the handle calls (exec.go, runHandle) return
+// what the same methods return in the compound call Open - a FileInfo, content,
+// a listing -, whatever happened to the name meanwhile: classed alike.
+func handleAsOpen(call string) string {
+	c, label, ok := strings.Cut(call, ".")
+	if !ok || !strings.HasPrefix(c, "Handle") && c != "OpenChmod" {
+		return call
+	}
+
+	switch {
+	case strings.HasPrefix(label, "Stat"):
+		return "Open.Stat"
+	case strings.HasPrefix(label, "ReadDir"), label == "Readdirnames":
+		return "Open.Readdirnames"
+	case label == "Read", label == "ReadAt":
+		return "Open.Read"
+	}
+
+	return call
 }
 
 // ---- the step ----
@@ -1107,6 +1128,7 @@ func (s *sys) Step(op int) bfs.StepResult {
 	}
 
 	rootCase := s.fsName == "OrefaFS" && refRootInvolved(vcwd, o)
+	handleOp := strings.HasPrefix(o.Call, "Handle") || o.Call == "OpenChmod"
 	readOnly := readOnlyCalls[o.Call]
 
 	// fromOutside: a read answered with something that lies outside B (outside
@@ -1184,8 +1206,10 @@ compare:
 				mk(call, "outcome", oc(w.Kind), oc(g.Kind), fmt.Sprintf("reference %s (%s), BasePathFS %s (%s)", w.Kind, w.Msg, g.Kind, g.Msg))
 			}
 
-			if i == 0 {
-				break compare // the rest of a compound call follows from the first difference
+			if i == 0 || handleOp {
+				// the rest of a compound call follows from the first difference (the
+				// methods of a handle call act on what the former ones left)
+				break compare
 			}
 
 			continue
@@ -1436,7 +1460,7 @@ func (s *sys) finish(o opT, pc, bcc string, want, got result, viols []bfs.Viol, 
 // operand and that operand is not the virtual root (whose name must not be
 // B's).
 func nameSpellingOnly(call, vcwd, arg, want, got string) bool {
-	switch call {
+	switch call = handleAsOpen(call); call {
 	case "Stat", "Lstat", "Open.Stat":
 	default:
 		return false
